@@ -369,3 +369,30 @@ Proof.
     destruct (nth_error pu (j - List.length units)) as [u|]; cbn [bind]; [|reflexivity].
     apply slice_dim_args. exact HA.
 Qed.
+
+(** * Further routes of src/util/dataAccess.cpp *)
+
+(** util::positionInData: the one-element box at the position lies in the data (for every u64 position) *)
+Theorem position_in_data_spec : forall extent pos, all_u64 pos ->
+  position_in_data extent pos = spec_pos_in_data extent pos.
+Proof.
+  unfold position_in_data, spec_pos_in_data.
+  induction extent as [|e extent IH]; destruct pos as [|p pos]; intro U; try reflexivity.
+  apply all_u64_cons in U. destruct U as [Hp U]. specialize (IH pos U).
+  cbn [List.length Nat.eqb all_lt repeat fits] in *. rewrite <- IH.
+  destruct (Nat.eqb (List.length extent) (List.length pos)); cbn [andb]; [|rewrite !andb_false_r; reflexivity].
+  destruct (all_lt pos extent); rewrite ?andb_true_r, ?andb_false_r; [|reflexivity]. lia.
+Qed.
+
+(** the vector form of util::positionToIndex(..., const Dimension &) with one entry is the conversion dataSlice uses *)
+Theorem position_to_index_pairs_one : forall d s e u rm,
+  position_to_index_pairs d [s] [e] [u] rm = bind (position_to_index_pair d s e u rm) (fun r => Ok [r]).
+Proof.
+  intros d s e u rm. unfold position_to_index_pairs. destruct d; cbn [List.length Nat.eqb negb orb seq mapM nth];
+    destruct (position_to_index_pair _ s e u rm); reflexivity.
+Qed.
+
+(** the three-argument dataSlice is the five-argument one with no units in Exclusive mode (by definition) *)
+Theorem data_slice3_is_default : forall B dims shape start end_,
+  data_slice3 B dims shape start end_ = data_slice B dims shape start end_ [] RangeMatch_Exclusive.
+Proof. reflexivity. Qed.
